@@ -84,6 +84,20 @@ Proof.
 Qed.
 Print Assumptions C09_no_cb_after_close.
 
+(* close_cb(h) runs only for handles on which uv_close has returned (so "never after the
+   close callback" is the theorem above applied to a state in which close_cb has run). *)
+Theorem C09_close_cb_after_close :
+  forall n e0 lscript beh scripts, 0 <= e0 ->
+  forall s, reachable (init n e0 lscript beh scripts) s ->
+  forall h, In h (l_closed (lp s)) ->
+    unl (hs s h) = true /\ hst (hs s h) = Closing.
+Proof.
+  intros n e0 ls beh sc He s Hr h Hin. pose proof (reachable_inv _ _ _ _ _ _ He Hr) as I.
+  pose proof (close_cb_after_close s I h (or_intror Hin)) as Hu.
+  split; [exact Hu|]. exact (proj1 (closed_handle_silent s I h Hu)).
+Qed.
+Print Assumptions C09_close_cb_after_close.
+
 (* What uv__async_close guarantees.
    (1) The step with which uv__async_spin returns happens only when busy = 0, and then no
        sender is between busy++ and busy-- on h.
